@@ -25,6 +25,14 @@ macro "b!" s:str : term => do
   let elems ← bs.toArray.mapM fun b => `(($(Lean.quote b.toNat) : UInt8))
   `(([$elems,*] : Bytes))
 
+/-! Placeholders the translator (`go/cmd/extract/gen_c14.go`) emits for source constructs outside
+its statement language: the generated file still compiles (other checks link against it), but no
+equality with the model can be proved about them, so the C14 obligation fails as it should. -/
+def unsupportedS (_what : String) : Bytes := [0]
+def unsupportedL (_what : String) : List Bytes := [[0]]
+def unsupportedI (_what : String) : Int := 0
+def unsupportedB (_what : String) : Bool := false
+
 /-- `fmt.Sprintf("%d", i)` -/
 def fmtInt : Int → Bytes
   | .ofNat n => decDigits n
